@@ -30,7 +30,9 @@ RULE = ("Hypothesis-generated (attestation file, public-keys file, root of trust
         "variants re-signed by the harness so that only one semantic datum differs (key replaced "
         "/ added / removed, path renamed, file reordered, attested hash over compressed or "
         "unsorted keys, message truncated / extended, foreign header, missing target, UI key "
-        "mismatch, wrong or non-self-signed root); non-trivial = a variant, or a genuine triple "
+        "mismatch, wrong or non-self-signed root, an input that cannot be used at all: keys "
+        "file not an object / with a non-key / not JSON / empty / missing, certificate file "
+        "not JSON / missing, root of trust garbage / missing / not a point); non-trivial = a variant, or a genuine triple "
         "with >= 3 keys; distinct by case fingerprint")
 ASSUMPTIONS = [
     "certificates are built and signed by the harness (vlib/certs.py, vlib/attest.py); the "
@@ -43,9 +45,14 @@ VARIANTS = ["none", "none", "reorder-file", "key-replaced", "key-added", "key-re
             "msg-extended", "foreign-header", "missing-target", "ui-key-mismatch", "wrong-root",
             "root-not-self-signed", "hash-flipped", "foreign-platform-id", "bundled-root",
             "one-target-signature-broken", "target-without-app-hash",
-            "attestation-message-reshaped"]
+            "attestation-message-reshaped", "unusable-input", "unusable-input", "unusable-input"]
+# one of the three inputs cannot be used at all: nothing can be vouched for
+UNUSABLE = ["pubkeys-not-object", "pubkeys-bad-key", "pubkeys-key-not-on-curve",
+            "pubkeys-not-json", "pubkeys-empty", "pubkeys-missing", "cert-not-json",
+            "cert-missing", "root-garbage", "root-missing-or-not-a-point"]
 REQUIRED_LABELS = {t: ["plat:ledger", "plat:sgx", "accepted", "refused", "legacy", "current", "via:program"] +
-                   ["variant:" + v for v in sorted(set(VARIANTS))]
+                   ["variant:" + v for v in sorted(set(VARIANTS))] +
+                   ["unusable:" + k for k in UNUSABLE]
                    for t in ("quick", "thorough")}
 h32 = st.binary(min_size=32, max_size=32)
 
@@ -79,7 +86,8 @@ def cases(draw, tier):
          "vpath": draw(st.sampled_from(EXTRA_PATHS + ["m/99'/0'/0'/0/0", "zzz"])),
          "vhdr": draw(st.integers(0, 5)), "vtarget": draw(st.integers(0, 1)),
          # through adm_ledger.py / adm_sgx.py with a command line instead of the function
-         "program": draw(st.integers(0, 3)) == 0}
+         "program": draw(st.integers(0, 3)) == 0,
+         "ukind": draw(st.sampled_from(UNUSABLE))}
     return c
 
 
@@ -289,6 +297,45 @@ def run_case(c):
         fmap[p] = raw.hex()
     with open(pk_path, "w") as f:
         json.dump(fmap, f)
+    if var == "unusable-input":
+        kind = c.get("ukind", UNUSABLE[vi % len(UNUSABLE)])
+        labels.append("unusable:" + kind)
+        genuine = False
+        if kind == "pubkeys-not-object":
+            with open(pk_path, "w") as f:
+                json.dump([[p, v] for p, v in fmap.items()], f)
+        elif kind == "pubkeys-bad-key":
+            with open(pk_path, "w") as f:
+                json.dump(dict(fmap, **{order[vi % len(order)]: "zz" * 33}), f)
+        elif kind == "pubkeys-key-not-on-curve":
+            with open(pk_path, "w") as f:
+                json.dump(dict(fmap, **{order[vi % len(order)]: "04" + "00" * 63 + "05"}), f)
+        elif kind == "pubkeys-not-json":
+            with open(pk_path, "w") as f:
+                f.write(json.dumps(fmap)[:-1])
+        elif kind == "pubkeys-empty":
+            with open(pk_path, "w") as f:
+                f.write("{}")
+        elif kind == "pubkeys-missing":
+            os.unlink(pk_path)
+        elif kind == "cert-not-json":
+            with open(att_path, "w") as f:
+                f.write(json.dumps(doc)[1:])
+        elif kind == "cert-missing":
+            os.unlink(att_path)
+        elif kind == "root-garbage":
+            if plat == "ledger":
+                root_arg = ("zz" * 65, root_arg[:-1], "0x" + root_arg, "")[c["vhdr"] % 4]
+                if root_arg.startswith("0x"):
+                    genuine = None      # another spelling of the same key
+            else:
+                with open(root_arg, "wb") as f:
+                    f.write(certs.cert_pem(root_cert)[:-40])
+        elif kind == "root-missing-or-not-a-point":
+            if plat == "ledger":
+                root_arg = "04" + "00" * 63 + "05"
+            else:
+                os.unlink(root_arg)
     options = types.SimpleNamespace(attestation_certificate_file_path=att_path,
                                     pubkeys_file_path=pk_path, root_authority=root_arg)
     out = io.StringIO()
@@ -301,6 +348,8 @@ def run_case(c):
                 fn = as_program(fn, options, plat == "ledger")
                 labels.append("via:program")
             fn(options)
+    except HarnessError:
+        raise
     except Exception as e:    # noqa - both CLIs turn every exception into a non-zero exit
         err = e
     text = out.getvalue()
@@ -359,6 +408,38 @@ def run_case(c):
     return Out(labels, var != "none" or len(c["keys"]) >= 3)
 
 
+def unusable_cases(tier, seed):
+    """Every kind of unusable input x platform x message framing x call route, on one fixed
+    genuine device (the random stage draws them too; this one makes sure each is met)."""
+    out = []
+    paths = [attest.UI_PATH] + ALL_PATHS[1:4]
+    for plat in ("ledger", "sgx"):
+        for kind in UNUSABLE:
+            for legacy in ((False, True) if plat == "ledger" else (False,)):
+                for program in (False, True):
+                    for vhdr in ((0, 1, 2, 3) if kind == "root-garbage" and plat == "ledger"
+                                 else (0,)):
+                        out.append({
+                            "plat": plat, "keys": [[p, 1000 + i] for i, p in enumerate(paths)],
+                            "compressed_in_file": [False, True, False, False],
+                            "file_order": [2, 0, 3, 1], "ud": bytes(range(32)),
+                            "best": bytes([7]) * 32, "tx": bytes(8), "ts": 1700000000,
+                            "ui_hash": bytes([1]) * 32, "signer_hash": bytes([2]) * 32,
+                            "iteration": 3, "version": "5.4", "ui_version": "5.4",
+                            "legacy": legacy, "legacy_version": "5.3",
+                            "platform3": b"led" if plat == "ledger" else b"sgx",
+                            "foreign_platform3": b"abc", "ui_ud": bytes([9]) * 32,
+                            "roots": [11, 12, 13, 14], "auth": b"auth", "variant":
+                            "unusable-input", "vi": 1, "vkey": 99, "vbytes": b"x",
+                            "vpath": "zzz", "vhdr": vhdr, "vtarget": 0, "program": program,
+                            "ukind": kind})
+    return out
+
+
 def stages(tier):
+    from vlib.runner import EnumStage
     return [HypStage("verify", lambda t: cases(t), run_case, {"quick": 80, "thorough": 2500},
-                     budget_s={"quick": 100, "thorough": 1200})]
+                     budget_s={"quick": 100, "thorough": 1200}),
+            EnumStage("unusable-inputs", unusable_cases, run_case,
+                      exhaustive={"quick": True, "thorough": True},
+                      budget_s={"quick": 60, "thorough": 60})]
